@@ -188,15 +188,17 @@ class Stats:
 
 
 class CaseHang(Exception):
-    '''a single case ran for CASE_LIMIT seconds (cases take milliseconds to
-    a few seconds): the code under test does not terminate on this input'''
+    '''a single case burnt CASE_LIMIT seconds of CPU in this process (cases
+    take milliseconds to a few seconds): the code under test does not
+    terminate on this input.  CPU time of the process, not wall-clock time:
+    a loaded machine or a slow child process cannot trip it.'''
 
 
-CASE_LIMIT = float(os.environ.get('VERIF_CASE_LIMIT', '300'))
+CASE_LIMIT = float(os.environ.get('VERIF_CASE_LIMIT', '900'))
 
 
 def _hang(_sig, _frame):
-    raise CaseHang(f'no result after {CASE_LIMIT:.0f} s')
+    raise CaseHang(f'no result after {CASE_LIMIT:.0f} s of CPU time')
 
 
 def run_one(part: Part, case, stats: Stats, counting=True):
@@ -206,8 +208,8 @@ def run_one(part: Part, case, stats: Stats, counting=True):
 
     watch = threading.current_thread() is threading.main_thread()
     if watch:
-        old = signal.signal(signal.SIGALRM, _hang)
-        signal.setitimer(signal.ITIMER_REAL, CASE_LIMIT)
+        old = signal.signal(signal.SIGVTALRM, _hang)
+        signal.setitimer(signal.ITIMER_VIRTUAL, CASE_LIMIT)
     try:
         out = part.execute(case)
     except HarnessError:
@@ -219,8 +221,8 @@ def run_one(part: Part, case, stats: Stats, counting=True):
         out.failures.append(crash_failure(exc, f'{stats.pid}/{part.name}'))
     finally:
         if watch:
-            signal.setitimer(signal.ITIMER_REAL, 0)
-            signal.signal(signal.SIGALRM, old)
+            signal.setitimer(signal.ITIMER_VIRTUAL, 0)
+            signal.signal(signal.SIGVTALRM, old)
     p = stats.part(part.name)
     shrinking = stats.failure is not None
     if counting and not shrinking:
